@@ -55,6 +55,15 @@ def probe_inputs(seed=0, n=40):
             a, b = V.spell("CVSS:3.0/", m), V.spell("CVSS:3.1/", m)
             vec += [("3", a), ("3", b)] if found % 2 else [("3", b), ("3", a)]
             found += 1
+    # spelling twins: the same assignment written differently (field order, Not Defined
+    # spelled out), adjacent in both orders -- a cache keyed by the canonical form must not
+    # leak the other spelling's supplied string
+    for ver in T.VERSIONS:
+        for _ in range(6):
+            p, m, s = V.rand_vector(rng, ver, p_opt=0.5)
+            s2 = V.spell(p, V.nd_variants(ver, m, rng, 1)[-1], "shuffle", rng)
+            if s2 != s:
+                vec += [(ver, s), (ver, s2), (ver, s)]
     vec += [("2", vec[-1][1]), ("4", vec[0][1]), ("3", vec[0][1])]
     rh = []
     for ver, s in vec[::5]:
